@@ -7,6 +7,7 @@ import Driver.GSort
 import Driver.EnvTmpl
 import Driver.Gencommon
 import Driver.GenGuards
+import Driver.GenOrder
 /-! Line-protocol driver: one request per line on stdin, one answer per line on stdout.
 Core-only so that it links as a native executable. -/
 open Drv
@@ -23,6 +24,7 @@ def step (st : DState) (line : String) : DState × String :=
   match words line with
   | "bs" :: rest => (st, BitSet.handle rest)
   | "gg" :: rest => (st, Drv.GG.handle rest)
+  | "go_" :: rest => (st, Drv.GO.handle rest)
   | "set" :: rest => let r := Drv.Set.handle st.set rest; ({ st with set := r.1 }, r.2)
   | "gc" :: rest => let r := Drv.GConfig.handle st.gc rest; ({ st with gc := r.1 }, r.2)
   | "gcm" :: rest => let r := Drv.GC.handle st.gcm rest; ({ st with gcm := r.1 }, r.2)
